@@ -63,7 +63,9 @@ def utf8Final (cnt wc : Nat) : Dec :=
   if wc > unicodeMax then invalid cnt else .ret cnt (some wc)
 
 /-- `_utf8_to_unicode(pwc, s, n)`: one UTF-8 sequence; surrogates D800..DFFF in
-3-byte form are still accepted here (CESU-8 needs them). -/
+3-byte form are still accepted here (CESU-8 needs them).  `n < cnt` is the comparison
+`n < (size_t)cnt` of the repaired code (the original `(int)n < cnt` went wrong for
+`n ≥ 2^31`, see known_findings.json / corpus/C18/uni.length-over-int-max.ops). -/
 def utf8Raw (xs : List Nat) (n : Nat) : Dec :=
   if n = 0 then .ret 0 none else
   match xs[0]? with
